@@ -60,6 +60,13 @@ var frameExtra = map[string]bool{
 	"copyCoinbasesDeleted": true,
 }
 
+// names recorded only for the lockup precompile's dispatcher and ClaimCoinbaseLockup (added with the claim extension)
+var lockupExtra = map[string]bool{
+	"UnwrapQi": true, "ClaimQiDeposit": true, "ClaimCoinbaseLockup": true, "GetLockupData": true, "GetLatestLockupData": true,
+	"InternalAddress": true, "ReadCoinbaseLockup": true, "DeleteCoinbaseLockup": true, "CoinbaseLockupHash": true,
+	"WriteCoinbaseLockupToMap": true, "Uint32": true, "Uint64": true,
+}
+
 func fingerprint(repo, file, fn string, extra map[string]bool) ([]string, error) {
 	fset := token.NewFileSet()
 	f, err := parser.ParseFile(fset, filepath.Join(repo, file), nil, 0)
@@ -183,36 +190,78 @@ func handover(repo, file, fn string) ([]string, error) {
 			continue
 		}
 		found = true
-		ast.Inspect(fd.Body, func(n ast.Node) bool {
-			switch x := n.(type) {
-			case *ast.AssignStmt:
-				for i := range x.Lhs {
-					if i >= len(x.Rhs) {
-						break
-					}
-					l, r := expr(x.Lhs[i]), expr(x.Rhs[i])
-					if l == "ETXCache" || strings.HasSuffix(l, "OutboundEtxs") || strings.HasSuffix(l, ".Etxs") ||
-						r == "ETXCache" || r == "ETXCache[:]" || strings.HasPrefix(r, "make(len(ETXCache") || strings.HasSuffix(r, ".Etxs") {
-						out = append(out, l+"="+r)
-					}
+		// every recorded statement carries the chain of if / else branches it sits in ("@else(Failed)"): a hand-over that
+		// becomes conditional (or moves into another branch) changes the fingerprint
+		condNames := func(e ast.Expr) string {
+			var names []string
+			ast.Inspect(e, func(n ast.Node) bool {
+				if se, ok := n.(*ast.SelectorExpr); ok {
+					names = append(names, se.Sel.Name)
 				}
-			case *ast.CallExpr:
-				if id, ok := x.Fun.(*ast.Ident); ok && id.Name == "copy" && len(x.Args) == 2 {
-					out = append(out, "copy("+expr(x.Args[0])+","+expr(x.Args[1])+")")
-				}
-				if se, ok := x.Fun.(*ast.SelectorExpr); ok && (se.Sel.Name == "Reset" || se.Sel.Name == "Failed") {
-					out = append(out, se.Sel.Name)
-				}
-				if id, ok := x.Fun.(*ast.Ident); ok && id.Name == "ApplyMessage" {
-					out = append(out, "ApplyMessage")
-				}
-			case *ast.KeyValueExpr:
-				if k, ok := x.Key.(*ast.Ident); ok && k.Name == "Etxs" {
-					out = append(out, "Etxs:"+expr(x.Value))
-				}
+				return true
+			})
+			return strings.Join(names, ",")
+		}
+		var visit func(root ast.Node, guards string)
+		var handleIf func(is *ast.IfStmt, guards string)
+		emit := func(tok, guards string) {
+			// (the early returns of TransitionDb that hand out no ETXs at all are recorded without their guards)
+			if guards != "" && tok != "Etxs:nil" {
+				tok += "@" + strings.TrimSuffix(guards, "/")
 			}
-			return true
-		})
+			out = append(out, tok)
+		}
+		handleIf = func(is *ast.IfStmt, guards string) {
+			if is.Init != nil {
+				visit(is.Init, guards)
+			}
+			visit(is.Cond, guards)
+			c := condNames(is.Cond)
+			visit(is.Body, guards+"if("+c+")/")
+			switch e := is.Else.(type) {
+			case *ast.IfStmt:
+				handleIf(e, guards+"else("+c+")/")
+			case nil:
+			default:
+				visit(e, guards+"else("+c+")/")
+			}
+		}
+		visit = func(root ast.Node, guards string) {
+			ast.Inspect(root, func(n ast.Node) bool {
+				switch x := n.(type) {
+				case *ast.IfStmt:
+					handleIf(x, guards)
+					return false
+				case *ast.AssignStmt:
+					for i := range x.Lhs {
+						if i >= len(x.Rhs) {
+							break
+						}
+						l, r := expr(x.Lhs[i]), expr(x.Rhs[i])
+						if l == "ETXCache" || strings.HasSuffix(l, "OutboundEtxs") || strings.HasSuffix(l, ".Etxs") ||
+							r == "ETXCache" || r == "ETXCache[:]" || strings.HasPrefix(r, "make(len(ETXCache") || strings.HasSuffix(r, ".Etxs") {
+							emit(l+"="+r, guards)
+						}
+					}
+				case *ast.CallExpr:
+					if id, ok := x.Fun.(*ast.Ident); ok && id.Name == "copy" && len(x.Args) == 2 {
+						emit("copy("+expr(x.Args[0])+","+expr(x.Args[1])+")", guards)
+					}
+					if se, ok := x.Fun.(*ast.SelectorExpr); ok && (se.Sel.Name == "Reset" || se.Sel.Name == "Failed") {
+						emit(se.Sel.Name, guards)
+					}
+					if id, ok := x.Fun.(*ast.Ident); ok && id.Name == "ApplyMessage" {
+						emit("ApplyMessage", guards)
+					}
+				case *ast.KeyValueExpr:
+					if k, ok := x.Key.(*ast.Ident); ok && k.Name == "Etxs" {
+						emit("Etxs:"+expr(x.Value), guards)
+					}
+				}
+				return true
+			})
+		}
+		visit(fd.Body, "")
 	}
 	if !found {
 		return nil, fmt.Errorf("function %s not found in %s", fn, file)
@@ -261,6 +310,9 @@ func main() {
 	def("EtxDefaultType", uint64(types.DefaultType))
 	def("EtxConversionType", uint64(types.ConversionType))
 	def("EtxUnwrapQiType", uint64(types.UnwrapQiType))
+	def("EtxCoinbaseLockupType", uint64(types.CoinbaseLockupType))
+	w("(* package params: epoch length of the coinbase lockups *)\n")
+	def("CoinbaseEpochBlocks", params.CoinbaseEpochBlocks)
 	w("\n(* jump table rows (core/vm/jump_table.go through the verif hook) *)\n")
 	w("Record oprow := mkRow { r_min : N; r_max : N; r_exec : string; r_cgas : string; r_cgasv : option N; r_dgas : string; r_mem : string;\n  r_halts : bool; r_jumps : bool; r_writes : bool; r_reverts : bool; r_returns : bool }.\n")
 	ops := []struct {
@@ -315,6 +367,9 @@ func main() {
 		{"src_gasCallCode", "core/vm/gas_table.go", "gasCallCode", frameExtra},
 		{"src_gasDelegateCall", "core/vm/gas_table.go", "gasDelegateCall", frameExtra},
 		{"src_gasStaticCall", "core/vm/gas_table.go", "gasStaticCall", frameExtra},
+		// the lockup precompile: dispatch by input length, and the claim of a locked coinbase
+		{"src_RunLockupContract", "core/vm/contracts.go", "RunLockupContract", lockupExtra},
+		{"src_ClaimCoinbaseLockup", "core/vm/contracts.go", "ClaimCoinbaseLockup", lockupExtra},
 	} {
 		fp, err := fingerprint(*repo, f.file, f.fn, f.extra)
 		if err != nil {
